@@ -38,7 +38,7 @@ def blackbox(ctx, A, fn, in_shape, in_dtype, exact, key, unit, what_prefix):
         # linearity statement
         ctx.notes.append(f"{unit} {what_prefix}: evaluation raises {type(ex).__name__} (reported by C01/C12)")
         return False
-    if np.abs(L.flat(z)).max(initial=0.0) > tol:
+    if not (np.abs(L.flat(z)).max(initial=0.0) <= tol):      # NaN-safe: a NaN is a deviation
         ctx.violation(unit, what_prefix + " does not map zero to zero", {**key, "x": "0"},
                       expected="0", observed=float(np.abs(L.flat(z)).max()), oracle="A(0) = 0")
         found = True
@@ -49,8 +49,8 @@ def blackbox(ctx, A, fn, in_shape, in_dtype, exact, key, unit, what_prefix):
         b = complex(rng.choice([1, -0.5]), rng.choice([0, 2])) if cplx else rng.choice([1.0, -2.0])
         lhs = L.flat(fn(a * x + b * y))
         rhs = a * L.flat(fn(x)) + b * L.flat(fn(y))
-        scale = max(1.0, float(np.abs(rhs).max(initial=0.0)))
-        if np.abs(lhs - rhs).max(initial=0.0) > tol * scale:
+        scale = max(1.0, float(np.nan_to_num(np.abs(rhs)).max(initial=0.0)))
+        if not (np.abs(lhs - rhs).max(initial=0.0) <= tol * scale):
             ctx.violation(unit, what_prefix + " is not linear: A(a x + b y) != a A(x) + b A(y)",
                           {**key, "x": L.flat(x).tolist().__repr__(), "y": repr(L.flat(y).tolist()), "a": str(a), "b": str(b)},
                           expected=repr(rhs.tolist())[:300], observed=repr(lhs.tolist())[:300],
